@@ -131,3 +131,71 @@ def compare_with_model(ctx, reqs, op='DIFF'):
                 sa, sm = set(a.split(' ')), set(m.split(' '))
                 ctx.diverge(case, 'only-impl: ' + ' '.join(sorted(sa - sm))[:500], 'only-model: ' + ' '.join(sorted(sm - sa))[:500], op=op)
     return out
+
+
+def rich_leaves():
+    """leaves of the other scalar types the library documents (no naive datetimes: finding F42; no bool next to 0/1: NoNumAlias)"""
+    import datetime, decimal, uuid
+    utc = datetime.timezone.utc
+    tz5 = datetime.timezone(datetime.timedelta(hours=5))
+    return [decimal.Decimal('1.5'), decimal.Decimal('2'), decimal.Decimal('-0.25'), b'ab', b'cd', b'', datetime.datetime(2020, 1, 1, 2, 3, tzinfo=utc),
+            datetime.datetime(2021, 5, 6, 7, 8, 9, 10, tzinfo=tz5), datetime.date(2020, 1, 1), datetime.date(2021, 12, 31), datetime.time(1, 2, 3), datetime.time(23, 59),
+            datetime.timedelta(1), datetime.timedelta(seconds=5), uuid.UUID(int=1), uuid.UUID(int=2), 1 - 2j, 2.5 + 0j, frozenset({2, 3}), frozenset(), frozenset({'a'}),
+            2, 3, 'a', 'b', None, 2.5, float('inf'), 'é', '', 'multi\nline', 'multi\nline2', 10 ** 20]
+
+
+def rich_pairs(ctx, n, sets=True, keys=None):
+    """pairs of nested values whose leaves are drawn from rich_leaves(); keys stay plain (str / int / float / None)"""
+    import copy as _copy
+    rng = ctx.rng
+    pool = rich_leaves()
+    keys = keys or ['a', 'b', 'c', 2, None, 2.5, 'x y']
+
+    def gen(d=0):
+        r = rng.random()
+        if d >= 2 or r < 0.35:
+            return _copy.deepcopy(rng.choice(pool))
+        if r < 0.6:
+            return [gen(d + 1) for _ in range(rng.randint(0, 4))]
+        if r < 0.85 or not sets:
+            return {rng.choice(keys): gen(d + 1) for _ in range(rng.randint(0, 4))}
+        return {_copy.deepcopy(rng.choice(pool)) for _ in range(rng.randint(0, 4))}
+
+    def edit(v):
+        if isinstance(v, list):
+            v = list(v); r = rng.random()
+            if v and r < 0.3:
+                del v[rng.randrange(len(v))]
+            elif r < 0.6:
+                v.insert(rng.randint(0, len(v)), gen(2))
+            elif v:
+                i = rng.randrange(len(v)); v[i] = edit(v[i])
+            return v
+        if isinstance(v, dict):
+            v = dict(v); r = rng.random()
+            if v and r < 0.3:
+                del v[rng.choice(list(v))]
+            elif r < 0.6:
+                v[rng.choice(keys)] = gen(2)
+            elif v:
+                k = rng.choice(list(v)); v[k] = edit(v[k])
+            return v
+        if isinstance(v, set):
+            v = set(v)
+            if v and rng.random() < 0.5:
+                v.pop()
+            else:
+                v.add(_copy.deepcopy(rng.choice(pool)))
+            return v
+        return gen(2)
+
+    out = []
+    for _ in range(n):
+        t1 = gen()
+        if not isinstance(t1, (list, dict, set)):
+            t1 = [t1]
+        t2 = edit(_copy.deepcopy(t1))
+        if rng.random() < 0.4:
+            t2 = edit(t2)
+        out.append((t1, t2))
+    return out
